@@ -1,5 +1,5 @@
 """C08 - reductions equal NumPy's along the named axis and drop only that axis."""
-import copy, itertools, math, warnings
+import copy, itertools, math, os, warnings
 from fractions import Fraction
 import numpy as np
 import core, gen
@@ -183,12 +183,15 @@ class PctEnv(core.CellEnv):
 class C08(Prop):
     id = "C08"
     theorems = ["reduce_axes_spec", "fibre_get", "fibre_length", "dealWithAxis_name_pos", "reduce_none_scalar",
-                "reduce_tuple_eq_flatten", "getFunc_table_policy", "getFunc_table_covers", "reduce_none_row_major", "reduce_rank1_scalar", "dealWithAxis_pos_spec", "reduce_name_spec", "reduce_commute_transpose", "reduce_tuple_cells",
+                "reduce_tuple_eq_flatten", "getFunc_table_policy", "getFunc_table_covers", "selectRed_covers_table", "selectRed_within_table",
+                "familyOf_isSome_iff_hasModel", "reduce_none_row_major", "reduce_rank1_scalar", "dealWithAxis_pos_spec", "reduce_name_spec", "reduce_commute_transpose", "reduce_tuple_cells",
                 "percentile_spec", "percentile_scalar_spec", "percentile_tuple_spec", "percentile_rank1_spec", "percentile_none_scalar",
                 "percentile_refuses", "quantile_spec",
                 "red_plain_nan", "red_skipna_eq_plain_filter", "red_skipna_all_nan", "red_empty_fibre", "red_skipna_no_nan",
                 "red_inf_not_missing", "sum_perm", "cumsum_last_eq_sum", "argmin_spec", "argmax_spec",
-                "nanargmin_inf_counterexample", "reduceX_name_spec"]
+                "nanargmin_inf_counterexample", "reduceX_name_spec",
+                "min_perm", "max_perm", "prod_perm", "mean_perm", "var_perm", "nanargmin_spec", "nanargmax_spec",
+                "nanargmax_inf_counterexample", "cumsum_prefix_spec", "cumX_name_spec"]
     rule = ("float/int/bool arrays of rank 1-4, sizes 1-4, NaN patterns none / some / whole fibre / all, metadata on the "
             "array and on (some of) its axes; every reduction (sum prod mean var std min max ptp all any median) x axis by "
             "name / position / negative position / tuple or list of names, positions, negative positions or a mix, in any "
@@ -197,10 +200,16 @@ class C08(Prop):
             "by name / position / default / None / tuple, with and without newaxis= (compared cell by cell with the mirror "
             "Lib.percentile: symbolic cells `redp q fibre`), plus a stratum of float percentile lists and of "
             "lib.stats.quantile with dyadic levels. The (function, skipna) -> NumPy "
-            "family table of _get_func is tabulated from the implementation on every run. Stratum redx (concrete fibre "
+            "family table of _get_func is tabulated from the implementation on every run; the concrete model Lib/Reduce.lean is "
+            "tied to it row by row (`selectRed_covers_table`: every row except std has a model function whose family - "
+            "`Lib.familyOf` - is the row's family), so a _get_func that switches a family breaks the proof stage; the failing "
+            "row is then named together with a fibre on which the selected function differs from the due one. Stratum redx (concrete fibre "
             "semantics): float arrays of rank 1-3, sizes 0-4, cells small integers / dyadic rationals / 0-1 with NaN, +inf, "
             "-inf sprinkled (none / one / several / a whole fibre / all); sum prod mean min max ptp all any median var "
-            "argmin argmax cumsum cumprod x skipna x axis by name / position / negative position / tuple / None: the driver "
+            "argmin argmax cumsum cumprod std x skipna x axis by name / position / negative position / tuple / None (argmin / "
+            "argmax over a tuple of dimensions and over the whole array return tuples of labels: mapped back to the position in "
+            "the flattened group / array; cumulative functions over a tuple: the grouped dimension comes first, judged by the "
+            "oracle too; std: sqrt of the model's var): the driver "
             "evaluates the concrete model Lib/Reduce.lean (selectRed / selectScan through reduceX / cumAxis) and returns exact "
             "cells (rational, nan, inf, -inf) or the error class, compared cell by cell with the implementation (NaN "
             "positions, infinities and error classes exactly); oracle from the statement: the skipna result is NumPy's plain "
@@ -208,7 +217,9 @@ class C08(Prop):
             "NaNs present; distinct = canonical JSON")
     assumptions = ["what a NumPy reduction computes on a 1-D fibre is NumPy's; sum/prod/mean/var/std/median compared after rounding to 12 significant digits",
                    "stratum redx: rounding is not modelled - a model value that is exactly a float64 must be returned exactly "
-                   "(var excepted: two rounding passes), any other within 1e-12 relative; std (needs a square root) is not in the concrete model",
+                   "(var excepted: two rounding passes), any other within 1e-12 relative; std (needs a square root) is not in the concrete model: "
+                   "the implementation's std is compared with the square root (computed by the harness to 30 digits) of the model's var, within 1e-12 relative",
+                   "stratum redx, argmin / argmax over several dimensions: a returned tuple of labels is mapped back to a position through the first occurrence of each label in its axis",
                    "stratum redx: a rank-0 DimArray (what the masked-array switcher returns for ptp/all/any of an all-NaN 1-D array) is observed as a scalar",
                    "stratum redx: argmin/argmax(skipna=True) of a fibre whose non-NaN cells are all +inf / -inf behind a NaN: the reference is NumPy's nanargmin / nanargmax itself (it replaces NaN by +inf and returns the NaN's position; mirrored, `nanargmin_inf_counterexample`)"]
 
@@ -247,12 +258,56 @@ class C08(Prop):
         self._table = rows
         return {"changed": changed, "summary": {"_get_func rows": len(rows)}, "rows": rows}
 
+    def model_families(self):
+        """(name, skipna) -> family of the concrete model: read from the definition `Lib.familyOf` (Lib/Reduce.lean), the
+        single place where the model states which family of `_get_func` each of its functions mirrors"""
+        import re as _re
+        txt = open(os.path.join(core.LEAN, "DimModel", "Lib", "Reduce.lean")).read()
+        body = txt[txt.index("def familyOf"):]
+        body = body[:body.index("| _, _ => none")]
+        return {(m.group(1), m.group(2) == "true"): m.group(3)
+                for m in _re.finditer(r'\|\s*"(\w+)",\s*(true|false)\s*=>\s*some\s*"(\w+)"', body)}
+
+    def family_witness(self, fn, skipna, due):
+        """a fibre on which the function `_get_func(fn, skipna)` returns differs from the function of the family `due`"""
+        import sys as _s
+        t = _s.modules["dimarray.core.transform"]
+        ref = {"plain": lambda: getattr(np, fn), "nanfunc": lambda: getattr(np, "nan" + fn),
+               "mediannan": lambda: t._median_with_nan, "masked": lambda: t._MaskedArrayFunc(fn)}.get(due)
+        nan, inf = float("nan"), float("inf")
+        fibres = [[1.0, nan, 3.0], [nan, 2.0, 0.0], [nan, nan], [2.0, 1.0, 4.0], [nan, inf], [0.0, nan], [nan]]
+
+        def obs(f, x):
+            try:
+                with warnings.catch_warnings():
+                    warnings.simplefilter("ignore")
+                    with np.errstate(all="ignore"):
+                        r = f(np.array(x))
+                r = np.ma.filled(r, np.nan) if isinstance(r, np.ma.MaskedArray) or r is np.ma.masked else r
+                return ["ok", [repr(float(v)) for v in np.asarray(r, dtype=float).reshape(-1)]]
+            except Exception as e:
+                return ["err", type(e).__name__]
+        try:
+            want_f, got_f = ref(), t._get_func(fn, skipna)
+        except Exception as e:
+            return {"unavailable": "%s: %s" % (type(e).__name__, e)}
+        for x in fibres:
+            g, w = obs(got_f, x), obs(want_f, x)
+            if g != w:
+                return {"fibre": [repr(v) for v in x], "selected_returns": g, "due_family_returns": w}
+        return None
+
     def table_failing_rows(self, info):
         bad = []
+        model = self.model_families()
         for fn, s, fam in info["rows"]:
             ok = (fam in ("nanfunc", "masked")) if s else (fam == "plain" or (fn == "median" and fam == "mediannan"))
             if not ok:
-                bad.append({"function": fn, "skipna": s, "family": fam})
+                bad.append({"function": fn, "skipna": s, "family": fam, "theorem": "getFunc_table_policy"})
+            if fn != "std" and model.get((fn, s)) != fam:
+                # `selectRed_covers_table`: the concrete model mirrors another family than the one selected now
+                bad.append({"function": fn, "skipna": s, "family": fam, "model_family": model.get((fn, s)),
+                            "theorem": "selectRed_covers_table", "witness": self.family_witness(fn, s, model.get((fn, s)))})
         return bad
 
     def table_replay_hint(self):
